@@ -105,7 +105,8 @@ impl Prop for C19 {
         // inputs
         let mut gcfg = GenCfg::order_insensitive();
         gcfg.fault_pct = 15;
-        gcfg.print = false;
+        // `print` writes to stderr: stdout stays exactly the graph
+        gcfg.print = rng.chance(1, 2);
         gcfg.max_stanzas = 4;
         let case = build_case(rng, &gcfg, 15, 0, 1);
         let mut text = case.text.clone();
@@ -121,6 +122,9 @@ impl Prop for C19 {
             out.feat("dsl_without_stanzas");
         }
         let source = py::gen_any_source(rng, 8, 30);
+        if text.contains("print ") {
+            out.feat("dsl_with_print_statements");
+        }
         let lazy = rng.chance(1, 2);
         let as_json = rng.chance(1, 2);
         let with_output = rng.chance(1, 3);
